@@ -11,30 +11,30 @@ import (
 
 // Method names (engine methods; the pool mirrors carry the same names).
 const (
-	MExecute              = "Execute"
-	MExecuteStop          = "ExecuteWithStopTagDirect"
-	MConcurrent           = "ExecuteConcurrent"
-	MMix                  = "ExecuteMixModel"
-	MMixStop              = "ExecuteMixModelWithStopTagDirect"
-	MSel                  = "ExecuteSelectedRules"
-	MSelCtl               = "ExecuteSelectedRulesWithControl"
-	MSelCtlGiven          = "ExecuteSelectedRulesWithControlAsGivenSortedName"
-	MSelCtlStop           = "ExecuteSelectedRulesWithControlAndStopTag"
-	MSelCtlStopGiven      = "ExecuteSelectedRulesWithControlAndStopTagAsGivenSortedName"
-	MSelConcurrent        = "ExecuteSelectedRulesConcurrent"
-	MSelMix               = "ExecuteSelectedRulesMixModel"
-	MInverse              = "ExecuteInverseMixModel"
-	MSelInverse           = "ExecuteSelectedRulesInverseMixModel"
-	MNSortMConc           = "ExecuteNSortMConcurrent"
-	MNConcMSort           = "ExecuteNConcurrentMSort"
-	MNConcMConc           = "ExecuteNConcurrentMConcurrent"
-	MSelNSortMConc        = "ExecuteSelectedNSortMConcurrent"
-	MSelNConcMSort        = "ExecuteSelectedNConcurrentMSort"
-	MSelNConcMConc        = "ExecuteSelectedNConcurrentMConcurrent"
-	MDAG                  = "ExecuteDAGModel"
-	MPoolEM               = "ExecuteRulesWithSpecifiedEM"               // pool only
-	MPoolEMMulti          = "ExecuteRulesWithMultiInputWithSpecifiedEM" // pool only
-	MPoolEMSel            = "ExecuteSelectedWithSpecifiedEM"            // pool only
+	MExecute         = "Execute"
+	MExecuteStop     = "ExecuteWithStopTagDirect"
+	MConcurrent      = "ExecuteConcurrent"
+	MMix             = "ExecuteMixModel"
+	MMixStop         = "ExecuteMixModelWithStopTagDirect"
+	MSel             = "ExecuteSelectedRules"
+	MSelCtl          = "ExecuteSelectedRulesWithControl"
+	MSelCtlGiven     = "ExecuteSelectedRulesWithControlAsGivenSortedName"
+	MSelCtlStop      = "ExecuteSelectedRulesWithControlAndStopTag"
+	MSelCtlStopGiven = "ExecuteSelectedRulesWithControlAndStopTagAsGivenSortedName"
+	MSelConcurrent   = "ExecuteSelectedRulesConcurrent"
+	MSelMix          = "ExecuteSelectedRulesMixModel"
+	MInverse         = "ExecuteInverseMixModel"
+	MSelInverse      = "ExecuteSelectedRulesInverseMixModel"
+	MNSortMConc      = "ExecuteNSortMConcurrent"
+	MNConcMSort      = "ExecuteNConcurrentMSort"
+	MNConcMConc      = "ExecuteNConcurrentMConcurrent"
+	MSelNSortMConc   = "ExecuteSelectedNSortMConcurrent"
+	MSelNConcMSort   = "ExecuteSelectedNConcurrentMSort"
+	MSelNConcMConc   = "ExecuteSelectedNConcurrentMConcurrent"
+	MDAG             = "ExecuteDAGModel"
+	MPoolEM          = "ExecuteRulesWithSpecifiedEM"               // pool only
+	MPoolEMMulti     = "ExecuteRulesWithMultiInputWithSpecifiedEM" // pool only
+	MPoolEMSel       = "ExecuteSelectedWithSpecifiedEM"            // pool only
 )
 
 var EngineMethods = []string{MExecute, MExecuteStop, MConcurrent, MMix, MMixStop, MSel, MSelCtl, MSelCtlGiven, MSelCtlStop,
@@ -115,6 +115,10 @@ func NewPoolTarget(obs *Obs, text string, min, max int64, em int) (*Target, erro
 		return nil, err
 	}
 	return &Target{Obs: obs, Pool: p}, nil
+}
+
+func newPool(min, max int64, em int, text string, apis map[string]interface{}) (*engine.GenginePool, error) {
+	return engine.NewGenginePool(min, max, em, text, apis)
 }
 
 // Outcome is what one call did, as seen from the caller.
